@@ -28,7 +28,8 @@ EDITORS = ["absolute", "shapes_to_paths", "expand_shorthand", "evenodd_to_nonzer
 MUTATORS = ["apply_style_attributes", "resolve_use", "simplify", "clip_to_viewbox",
             "remove_unpainted_shapes", "remove_nonsvg_content", "remove_processing_instructions",
             "remove_anonymous_symbols", "remove_title_meta_desc", "set_attributes",
-            "remove_attributes", "resolve_nested_svgs", "topicosvg", "set_viewbox", "remove_viewbox"]
+            "remove_attributes", "resolve_nested_svgs", "topicosvg", "set_viewbox", "remove_viewbox",
+            "set_root_paint"]
 QUERIES = ["shapes", "bounding_box", "tostring", "toetree", "checkpicosvg", "view_box", "tolerance", "xpath"]
 
 
@@ -43,6 +44,9 @@ def call(svg, op, mode):
     if op == "set_viewbox":
         # what view_box(), tolerance and clip_to_viewbox() answer depends on it
         return svg.set_attributes((("viewBox", "2 2 9 9"),), xpath="/svg:svg", **kw)
+    if op == "set_root_paint":
+        # default xpath: every shape without a fill of its own inherits it, cached or not
+        return svg.set_attributes((("fill", "teal"), ("stroke-linejoin", "round")), **kw)
     if op == "remove_viewbox":
         return svg.remove_attributes(("viewBox",), xpath="/svg:svg", **kw)
     if op == "xpath":
